@@ -67,6 +67,18 @@ def confirm(v):
         return 'panic' in r, '--bump-core 1=4294967295 on uint(%d) -> %s' % (v['literal'], r.get('panic', r.get('schema', '')[:80]))
     if site == 'git_fault':
         return confirm_git_fault(v)
+    if site == 'stdout_write':
+        if 'world' not in v:
+            return False, 'a library kernel printed to standard output (%s); no process-level replay for this kernel' % v.get('text')
+        return confirm_stdout(v)
+    if site == 'branch_rules':
+        import c04
+        from c04_check import py_rules
+        b = v['branch']
+        bs = None if b is None else ''.join(chr(c) for c in b)
+        r = d.call(op='branch_rules', rules=None if c04.RULESETS[v['rules']] is None else [list(x) for x in py_rules(v['rules'])],
+                   branch=None if bs is None else native.cps(bs), label=v.get('label'), mode=v.get('mode'), num=v.get('num'))
+        return 'panic' in r, 'flow branch rules (%s) on branch %r -> %s' % (v['rules'], bs, r.get('panic', 'no panic'))
     return False, 'unknown site'
 
 
@@ -104,6 +116,50 @@ def run_with_fault(desc, fmt, idx):
         gitlib.remove(d)
 
 
+def run_zerv_with_fault(desc, fmt, idx, extra=()):
+    """the real zerv binary on a real repository with the git call #idx failing -> (exit status, stdout, stderr)"""
+    import gitlib
+    import subprocess
+    zb = native.zerv_bin()
+    fault_driver()          # creates the wrapper
+    wdir = os.path.join(os.path.dirname(os.path.dirname(HERE)), 'build', 'gitwrap')
+    d, hs = gitlib.build_repo(desc)
+    try:
+        if idx is not None:
+            with open(os.path.join(d, '.git', 'verif_fault'), 'w') as f:
+                f.write(str(idx))
+        p = subprocess.run([zb, 'version', '-C', d, '--input-format', fmt] + list(extra), env=dict(gitlib.ENV, PATH=wdir + ':' + os.environ.get('PATH', '')),
+                           stdin=subprocess.DEVNULL, capture_output=True, text=True, timeout=60)
+        return p.returncode, p.stdout, p.stderr
+    finally:
+        gitlib.remove(d)
+
+
+def clean_process_result(rc, out, err):
+    """the statement: status 0 and exactly one result line on stdout, or non-zero, a diagnostic on stderr, nothing on stdout; no panic"""
+    if 'panicked at' in err or rc == 101:
+        return 'panic'
+    if rc == 0:
+        return None if (out.endswith('\n') and out.count('\n') == 1 and out.strip()) else 'status 0 but stdout is not exactly one result line: %r' % out[:200]
+    if out:
+        return 'status %d with output on stdout: %r' % (rc, out[:200])
+    if not err.strip():
+        return 'status %d without a diagnostic on stderr' % rc
+    return None
+
+
+def confirm_stdout(v):
+    import gitlib
+    for ann in (False, True):
+        desc = gitlib.desc_of_world(v['world'], annotated=ann)
+        for idx in [v['fail_at']] + [i for i in range(0, v.get('calls', 0) + 3) if i != v['fail_at']]:
+            rc, out, err = run_zerv_with_fault(desc, v['fmt'], idx)
+            why = clean_process_result(rc, out, err)
+            if why:
+                return True, 'zerv version on tags=%s with git call #%d failing: %s' % (v['world']['tags'], idx, why)
+    return False, 'stdout write at git call #%d on tags=%s does not reproduce with the real binary (%s)' % (v['fail_at'], v['world']['tags'], v['detail'])
+
+
 def confirm_git_fault(v):
     import gitlib
     # the native run issues the same git calls in the same order; to be robust against a differing count the
@@ -126,6 +182,15 @@ def validate_fault_replay(ck):
     ck.validated += 2
     if r0.get('ok') or 'panic' in r0 or not r9.get('ok'):
         ck.fail_inconclusive('git fault wrapper does not behave as expected: %r / %r' % (r0, r9))
+    # process level (differential): the real binary on a real two-commit repository, each git call failing in turn
+    desc2 = dict(commits=[(1, []), (0, [1])], head=0, branch='main', side={}, tags={'v1.2.3': (1, True)}, dates={0: 1_600_001_000, 1: 1_600_000_000}, dirty=None)
+    for idx in [None] + list(range(0, 14)):
+        rc, out, err = run_zerv_with_fault(desc2, 'semver', idx)
+        ck.validated += 1
+        why = clean_process_result(rc, out, err)
+        if why:
+            ck.confirmed('process:' + ('panic' if why == 'panic' else 'stdout'), 'zerv version on a real repository (tag v1.2.3 + 1 commit) with git call #%s failing: %s' % (idx, why),
+                         dict(site='stdout_write', world=dict(commits=2, shape='lin2', order=[0, 1], tags={'v1.2.3': 1}, annotated=['v1.2.3'], branch='main', status=''), fmt='semver', fail_at=idx or 0, calls=14, detail=why))
 
 
 def classify(v):
@@ -137,6 +202,8 @@ def classify(v):
         return 'panic:from_semver:' + ('repeated_' + '+'.join(rep) if rep else 'other')
     if site.startswith('bump_'):
         return 'panic:bump_overflow:' + site[5:]
+    if site == 'stdout_write':
+        return 'stdout_write:' + str(v.get('stage', 'kernel'))
     return 'panic:' + site
 
 
@@ -158,7 +225,7 @@ def main():
     ck.bounds = dict(derive_short_hash='commit hashes of 0..%d chars over ASCII + non-ASCII representatives' % N,
                      template_functions='prefix/hash/hash_int with values of 0..3(4) chars and any length 0..40; sanitize with max_length 0..6; format_timestamp with EVERY format string of 0..3(4) chars (symbolic) and any second 1970-2199',
                      from_semver='%d pre-release identifier lists of length <= %d over {epoch, post, dev, alpha, rc, x, number}' % (len(shapes), 3 if quick else 4),
-                     custom_values='dotted keys of up to 4 (5) chars over {a,b,c,s,n,.,0,1,2,9,x} into a nested JSON object with an array, an object, a string and null', git_fault='get_vcs_data + vcs_data_to_zerv_vars against the C02 git stub (chains of 1..3 commits and a diamond, 3-4 tag menus with every placement symbolic), the git call with a solver-chosen index 0..40 fails', bump_overflow='each by-name bump with any u32 amount on start values up to 2^64-1; index bump of a uint literal up to 2^64-1')
+                     custom_values='dotted keys of up to 4 (5) chars over {a,b,c,s,n,.,0,1,2,9,x} into a nested JSON object with an array, an object, a string and null', branch_rules='default GitFlow rules and a short rule set on branch names with all-digit segments of 1..20 (21) digits and free names of 0..3 (5) chars', git_fault='get_vcs_data + vcs_data_to_zerv_vars against the C02 git stub (chains of 1..3 commits and a diamond, 3-4 tag menus with every placement symbolic), the git call with a solver-chosen index 0..40 fails', bump_overflow='each by-name bump with any u32 amount on start values up to 2^64-1; index bump of a uint literal up to 2^64-1')
     ck.outside = ['argument-vector parsing (clap), stdout/stderr separation and the exit status of the process', 'more than one failing git sub-command per run, git printing malformed output with a zero status', 'RON/JSON parsing of stdin (library code)',
                   'panic paths inside the other properties\' executions are reported by those checks']
     ck.assumptions = ['chrono strftime item validity mirrors StrftimeItems::parse_next_item of the locked chrono 0.4.43 (read from the registry source)', 'python std models']
@@ -176,6 +243,9 @@ def main():
     cands += ck.absorb('get_custom_value never panics on nested JSON', ex, expect_tags=['returned'])
     ex = engine.explore('c13', 'path_uint_literal_overflow', [0], jobs=ck.jobs, deadline=dl(120))
     cands += ck.absorb('uint literal bump never overflows', ex)
+    bargs = c13.branch_rule_args(ck.tier)
+    ex = engine.explore('c13', 'path_branch_rules', bargs, jobs=ck.jobs, deadline=dl(600))
+    cands += ck.absorb('branch-rule resolution never panics (digit segments of 1..20 digits, free names)', ex, bounds=dict(configs=len(bargs)), expect_tags=['returned', 'applied'])
     gcases = c13.git_fault_cases(ck.tier)
     ex = engine.explore('c13', 'path_git_fault', gcases, jobs=ck.jobs, deadline=dl(600 if quick else 3000))
     cands += ck.absorb('any single git sub-command failing: extraction returns Ok or Err, never panics', ex, bounds=dict(configs=len(gcases)),
@@ -189,7 +259,7 @@ def main():
         seen.add(key)
         ok, desc = confirm(v)
         ck.validated += 1
-        (ck.confirmed if ok else ck.not_reproduced)(classify(v), 'panic: ' + desc, v)
+        (ck.confirmed if ok else ck.not_reproduced)(classify(v), ('panic: ' if v.get('clause') == 'panic' else '') + desc, v)
     ck.finish()
 
 
